@@ -76,6 +76,8 @@ fn rand_cfg(rng: &mut Rng) -> Cfg {
         fs_seed: rng.next_u64(),
         capacity: None,
         dio_align: None,
+        rw_modes: false,
+        io_err: 0.0,
     }
 }
 
